@@ -15,7 +15,8 @@ deriving DecidableEq, Repr, Inhabited
 /-- One API call of a thread program.  `wfill` (the producer writes the stream
 into the slice `WriteWait` handed out) and `use` (the consumer reads the bytes of
 the view `ReadPeek`/`ReadWait` handed out) are the caller's own accesses to ring
-memory between two calls. `commit n` commits `min n (bytes used)`. -/
+memory between two calls.  `wcommit n` commits `min n (bytes filled)`, `commit n` commits
+`min n (bytes used)`: a caller commits only what it has written resp. looked at. -/
 inductive Call where
   | write (n : Nat)
   | wwait (n : Nat)
@@ -46,5 +47,12 @@ def Call.isProducer : Call → Bool
 def Call.isConsumer : Call → Bool
   | .read _ | .peek _ | .rwait _ | .use | .commit _ => true
   | _ => false
+
+/-- which calls a thread of each role may make -/
+def Tid.allowed (t : Tid) (c : Call) : Bool :=
+  match t with
+  | .p => c.isProducer || c == .close || c == .len
+  | .c => c.isConsumer || c == .close || c == .len
+  | .k _ => c == .close || c == .len
 
 end Mqtt.Iface.Ring
